@@ -41,6 +41,8 @@ type Engine struct {
 	fnContract  map[*ssa.Function]*Contract
 	extContract map[string]*Contract // "io.ReadFull", "bufio.Reader.ReadSlice"
 	ifContract  map[string]*Contract // "io.Reader.Read"
+	ifContractPkg map[string]*Contract // pkgpath\x00key
+	curPkg      string
 	anonStructs map[string]string
 	declaring   map[string]bool
 	heapSorts   map[string]Sort
@@ -87,7 +89,7 @@ type Engine struct {
 
 func NewEngine(prog *ssa.Program) *Engine {
 	e := &Engine{tb: NewTB(), prog: prog, ssaPkgs: map[string]*ssa.Package{},
-		fnContract: map[*ssa.Function]*Contract{}, extContract: map[string]*Contract{}, ifContract: map[string]*Contract{},
+		fnContract: map[*ssa.Function]*Contract{}, extContract: map[string]*Contract{}, ifContract: map[string]*Contract{}, ifContractPkg: map[string]*Contract{},
 		anonStructs: map[string]string{}, declaring: map[string]bool{}, heapSorts: map[string]Sort{},
 		globalIDs: map[string]int{}, globalsUsed: map[string]bool{}, typeTags: map[string]int{}, tagTypes: map[int]types.Type{},
 		strLits: map[string]int{}, fnTable: map[string]*FuncVal{}, inlineDepthLimit: 12}
